@@ -70,7 +70,8 @@ def swarm(prop, r, tier):
             w["phase"] = 4
         if prop == "C07":
             cfg["multi_source"] = 1.0
-            cfg["mux"] = R.pick([0.0, 1.0])
+            cfg["mux"] = R.pick([0.0, 1.0, 1.0])
+            w["edit"] = 3.5
         if prop == "C08":
             cfg["rails"] = R.pick([0.6, 0.9])
             cfg["limits"] = R.pick([0.3, 0.8])
@@ -86,6 +87,7 @@ def swarm(prop, r, tier):
             cfg["multi_source"] = R.pick([0.5, 1.0])
         if prop == "C04":
             w["domfault"] = 2.5
+            cfg["mux"] = R.pick([0.5, 1.0])
     elif prop == "C19":
         w.update({"grow": 4, "edit": 2, "reject": 0.2, "phase": 1, "domfault": 0.2, "analyse": 0.2, "restart": 0.1, "observe": 2})
         cfg["groups"] = R.pick([0.5, 0.9])
@@ -213,7 +215,7 @@ def drive(sess, rnd, cfg, record):
             ops = [{"op": "restart", "replace": True}]
         elif grp == "observe":
             ops = [make_observe(g, m, cfg)]
-            if m.mux() is not None and prop in ("C01", "C02", "C06", "C07", "C08", "C09") and R.chance(0.12):
+            if m.mux() is not None and prop in ("C01", "C02", "C06", "C07", "C08", "C09") and R.chance(0.25):
                 # all live/dead patterns of the mux inputs, judged by this property's clauses
                 ops.append({"op": "mux_patterns"})
         for op in ops:
